@@ -21,10 +21,34 @@ import (
 
 var (
 	c07Tags  = []string{"", "T1", "T2"}
-	c07Srvs  = []string{"10.2.2.2:9618", "10.3.3.3:9618"}
+	c07Srvs  = c07Layouts[0]
 	c07Cmds  = []int{5, 6}
-	c07Valid = map[string][]int{"10.2.2.2:9618": {5}, "10.3.3.3:9618": {5, 6}}
 )
+
+// Two server layouts (the check is sequential, Workers: 1): two hosts named by
+// the connection's peer address, and two daemons behind ONE shared port that
+// differ only in the sock= part of the sinful string the client dials (PeerName).
+var c07Layouts = [][]string{
+	{"10.2.2.2:9618", "10.3.3.3:9618"},
+	{"<10.4.4.4:9618?sock=collector>", "<10.4.4.4:9618?sock=schedd>"},
+}
+
+func c07SrvIdx(srv string) int {
+	if srv == c07Srvs[1] {
+		return 1
+	}
+	return 0
+}
+
+// c07ValidFor: server A declares ValidCommands {5}, server B {5,6}.
+func c07ValidFor(srv string) []int { return [][]int{{5}, {5, 6}}[c07SrvIdx(srv)] }
+
+func c07NetAddr(srv string) string {
+	if strings.HasPrefix(srv, "<") {
+		return strings.SplitN(strings.Trim(srv, "<>"), "?", 2)[0]
+	}
+	return srv
+}
 
 type c07Sess struct {
 	sid      string
@@ -77,18 +101,26 @@ func (w *c07World) allowed(tag, srv string, cmd int) map[string]bool {
 	return out
 }
 
-func peerKey(srv string) string { return "<" + srv + ">" }
+func peerKey(srv string) string {
+	if strings.HasPrefix(srv, "<") {
+		return srv // the client keys its cache on the PeerName it was given
+	}
+	return "<" + srv + ">"
+}
 
 func (w *c07World) handshake(tag, srv string, cmd int) {
 	cc := baseCfg(security.SecurityRequired, security.SecurityRequired, []security.AuthMethod{mCTB}, []security.CryptoMethod{security.CryptoAES}, false)
 	cc.SessionCache, cc.Command, cc.SecurityTag = w.cache, cmd, tag
 	sc := baseCfg(security.SecurityRequired, security.SecurityRequired, []security.AuthMethod{mCTB}, []security.CryptoMethod{security.CryptoAES}, true)
 	sc.SessionDuration, sc.SessionLease = 3600, 1800
-	valid := c07Valid[srv]
+	valid := c07ValidFor(srv)
+	if strings.HasPrefix(srv, "<") {
+		cc.PeerName = srv
+	}
 	sc.PostAuthPolicy = func(u, p string, a, e bool) (string, []int) { return "", valid }
 	brk := w.brk
 	w.brk = ""
-	o := hsOpts{ClientCfg: cc, ServerCfg: sc, App: true, ServerAddr: srv}
+	o := hsOpts{ClientCfg: cc, ServerCfg: sc, App: true, ServerAddr: c07NetAddr(srv)}
 	if brk == "drop-request" {
 		o.HookC2S = func(i int, f []byte) [][]byte {
 			if i == 0 {
@@ -320,7 +352,7 @@ func (w *c07World) stateKey() string {
 		} else if s.exp-w.now <= 1800 {
 			st = "live-short"
 		}
-		parts = append(parts, fmt.Sprintf("%d:%q@%s%v/%s/srv=%v", i, s.tag, s.srv[3:4], s.valid, st, s.srvKnows))
+		parts = append(parts, fmt.Sprintf("%d:%q@%s%v/%s/srv=%v", i, s.tag, string(rune('A'+c07SrvIdx(s.srv))), s.valid, st, s.srvKnows))
 	}
 	sort.Strings(parts)
 	return strings.Join(parts, " ") + " brk=" + w.brk
@@ -338,7 +370,8 @@ func c07Replay(hist []string, res *vlib.Result) *c07World {
 	return w
 }
 
-func c07BFS(depth, maxSessions int, res *vlib.Result) {
+func c07BFS(depth, maxSessions, layout int, res *vlib.Result) {
+	c07Srvs = c07Layouts[layout]
 	seen := map[string]bool{" brk=": true}
 	frontier := [][]string{nil}
 	evs := c07Events()
@@ -382,7 +415,7 @@ func c07BFS(depth, maxSessions int, res *vlib.Result) {
 func C07Plan() *vlib.Plan {
 	p := &vlib.Plan{
 		Property: "C07", Level: "model_checking", Workers: 1,
-		Rule:   "E-BFS over client-side histories: 12 handshake events (tag in {'',T1,T2} x server in {A,B} x command in {5,6}; A declares ValidCommands {5}, B {5,6}) + restart A/B (server forgets), break the next resumption exchange (request lost / reply lost), advance virtual time (lease+60, duration+60), invalidate the newest session, sweep expired. Histories are replayed on a fresh client cache against two real servers; canonical state = multiset of (tag, server, ValidCommands, status, server-knows) + pending break. Oracle: reference map (tag, address, command) -> sessions that may be reused; the request the server receives (parsed off the wire) must name only an allowed session; after a failed resumption the session and every route to it are gone; after every event every route in the real cache must be allowed by the reference. Only safety is demanded (not resuming is never a violation).",
+		Rule:   "E-BFS over client-side histories: 12 handshake events (tag in {'',T1,T2} x server in {A,B} x command in {5,6}; A declares ValidCommands {5}, B {5,6}) + restart A/B (server forgets), break the next resumption exchange (request lost / reply lost), advance virtual time (lease+60, duration+60), invalidate the newest session, sweep expired. Histories are replayed on a fresh client cache against two real servers, in two layouts: two hosts (cache keyed by the connection's peer address) and two daemons behind one shared port whose sinful strings differ only in sock= (cache keyed by the PeerName the client dials); canonical state = multiset of (tag, server, ValidCommands, status, server-knows) + pending break. Oracle: reference map (tag, address, command) -> sessions that may be reused; the request the server receives (parsed off the wire) must name only an allowed session; after a failed resumption the session and every route to it are gone; after every event every route in the real cache must be allowed by the reference. Only safety is demanded (not resuming is never a violation).",
 		Assume: []string{"virtual time by re-storing entries with shifted expirations; judgements within 30 s of an expiry are skipped", "sequential, one process (server cache is process-global)"},
 	}
 	p.Gen = func(tier string, yield func(vlib.Case)) {
@@ -393,7 +426,12 @@ func C07Plan() *vlib.Plan {
 		p.Bounds = map[string]any{"history_depth": D, "max_sessions_tracked": S}
 		yield(vlib.Case{ID: fmt.Sprintf("bfs/depth=%d", D), Run: func() *vlib.Result {
 			res := &vlib.Result{}
-			c07BFS(D, S, res)
+			c07BFS(D, S, 0, res)
+			return res
+		}})
+		yield(vlib.Case{ID: fmt.Sprintf("bfs/shared-port-daemons/depth=%d", D), Run: func() *vlib.Result {
+			res := &vlib.Result{}
+			c07BFS(D, S, 1, res)
 			return res
 		}})
 	}
